@@ -20,7 +20,7 @@ FIX = {
  "F11": ("b1f6e32", "SimplicialComplex(Hypergraph(..., name='y')) dropped the network attributes (also through HIF for complexes)"),
  "F12": ("10fb8cf", "read_incidence_matrix failed on 1 x m, n x 1 and 1 x 1 files"),
  "F13": ("613ec5e", "uniform_HSBM with a block probability equal to 1 raised TypeError"),
- "F14": ("da9911c", "spectral_clustering(H, 2, seed=1) differed between two calls (ARPACK start vector unseeded)"),
+ "F14": ("80dbdd7", "spectral_clustering(H, 2, seed=s) differed between two calls with the same seed (ARPACK start vector unseeded; ARPACK's internal restart stream persists across calls - e.g. Hypergraph([[6],[2,5,0,1]]))"),
 }
 # (property, fix key, replay file)   -- a fixed entry suppresses nothing; its replay is run first by every check
 FIXED = [
@@ -39,6 +39,7 @@ FIXED = [
  ("C10", "F10", "replays/C10-F10-bipartite-order.json"), ("C10", "F11", "replays/C10-F11-sc-net-attrs.json"),
  ("C11", "F12", "replays/C11-F12-incidence-1xm.json"), ("C11", "F11", "replays/C11-F11-hif-sc-net-attrs.json"),
  ("C16", "F13", "replays/C16-F13-hsbm-p1.json"),
+ ("C17", "F14", "replays/C17-F14-spectral.json"),
  ("C04", "F5a", "replays/C04-F5a-idx0.json"), ("C04", "F5b", "replays/C04-F5b-bulk-desc.json"),
  ("C04", "F5c", "replays/C04-F5c-df.json"), ("C04", "F5c", "replays/C04-F5c-dh-bipartite.json"),
 ]
